@@ -356,16 +356,26 @@ func c08Run(in V) V {
 	// allocation gating: both calls
 	alloc := c08MaxAsk(b, tb) <= c08AllocCap
 	if alloc && t2i >= 0 {
-		// the second call starts wherever the first one ended; bound it over every suffix start
-		// cheaply by the largest 4-byte window scaled by the widest pair (conservative)
-		var w uint64
-		for i := 0; i+4 <= len(b); i++ {
-			if x := uint64(binary.BigEndian.Uint32(b[i:])); x > w {
-				w = x
+		// Where does the second call start?  If the first value is complete and at most 60 levels
+		// deep every skipper accepts it, so the second call starts right behind it: bound its
+		// requests exactly.  Otherwise it starts wherever the first one failed: bound it over every
+		// start offset by the largest 4-byte window scaled by the widest pair (conservative).
+		var m1 uint64
+		steps := 0
+		if n1, ok := c08Ask(b, tb, 60, &m1, &steps); ok {
+			if c08MaxAsk(b[n1:], byte(t2i)) > c08AllocCap {
+				second = false
 			}
-		}
-		if w*16+8 > c08AllocCap {
-			second = false
+		} else {
+			var w uint64
+			for i := 0; i+4 <= len(b); i++ {
+				if x := uint64(binary.BigEndian.Uint32(b[i:])); x > w {
+					w = x
+				}
+			}
+			if w*16+8 > c08AllocCap {
+				second = false
+			}
 		}
 	}
 	notRun := VL{Ls(I(9))}
